@@ -408,11 +408,10 @@ theorem step_inv (s : HalState) (c : Call) (q : Q) (b : Bool) (hg : Good s b) :
       exact ⟨Nat.lt_of_lt_of_le (hg d hd).1 h1, (hg d hd).2⟩
   cases hs : s.dev with
   | none =>
-    cases c <;> first
-      | exact absurd rfl hv
-      | exact ⟨b, by simp [mirror, hs, autoRun], by intro d hd; simp [hs] at hd⟩
-      | skip
-    · -- camera_open
+    cases c
+    case stoValidate => exact absurd rfl hv
+    case camOpen =>
+      dsimp only
       have h := driverOpenDevice_auto s.nopen .camera q [] (by intro y hy; simp at hy)
       simp only [cameraOpen]
       rcases hd : driverOpenDevice s.nopen .camera q with ⟨od, n', e, r, q'⟩
@@ -423,7 +422,8 @@ theorem step_inv (s : HalState) (c : Call) (q : Q) (b : Bool) (hg : Good s b) :
         obtain ⟨g1, g2, g3, g4⟩ := h
         refine open_inv s b .camera hs (some d) n' _ ⟨g1, g2, g3, ?_⟩
         exact autoRun_append_some g4 (vtable_auto d.id d.kind d.state _ n' [] _)
-    · -- storage_open
+    case stoOpen =>
+      dsimp only
       have h := driverOpenDevice_auto s.nopen .storage q [] (by intro y hy; simp at hy)
       simp only [storageOpen]
       rcases hd : driverOpenDevice s.nopen .storage q with ⟨od, n', e, r, q'⟩
@@ -434,32 +434,63 @@ theorem step_inv (s : HalState) (c : Call) (q : Q) (b : Bool) (hg : Good s b) :
         obtain ⟨g1, g2, g3, g4⟩ := h
         refine open_inv s b .storage hs (some d) n' _ ⟨g1, g2, g3, ?_⟩
         exact autoRun_append_some g4 (vtable_auto d.id d.kind d.state _ n' [] _)
+    all_goals
+      dsimp only
+      refine ⟨b, ?_, ?_⟩
+      · simp [mirror, hs, autoRun]
+      · intro d hd; simp [hs] at hd
   | some d =>
     have hkind : c.isOpen = false ∧ c.kind = d.kind := by
       cases c <;> simp_all [Call.wf, Call.isOpen, Call.kind]
     obtain ⟨hg1, hg2⟩ := hg d hs
     have hnil : NotIn d.id [] := by intro y hy; simp at hy
-    cases c <;> simp only [Call.isOpen, Call.kind] at hkind <;> first
-      | exact absurd rfl hv
-      | exact absurd hkind.1 (by simp)
-      | skip
-    · exact onDev_inv s d b _ hs hg (cameraSet_keeps d _ q hkind.2.symm)
-    · exact onDev_inv s d b _ hs hg (cameraGetter_keeps d _ _ q hkind.2.symm (Or.inl rfl))
-    · exact onDev_inv s d b _ hs hg (cameraGetter_keeps d _ _ q hkind.2.symm (Or.inr (Or.inl rfl)))
-    · exact onDev_inv s d b _ hs hg (cameraGetter_keeps d _ _ q hkind.2.symm (Or.inr (Or.inr rfl)))
-    · exact onDev_inv s d b _ hs hg (cameraStart_keeps d q hkind.2.symm)
-    · exact onDev_inv s d b _ hs hg (cameraStop_keeps d q hkind.2.symm)
-    · exact onDev_inv s d b _ hs hg (cameraExecuteTrigger_keeps d q hkind.2.symm)
-    · exact onDev_inv s d b _ hs hg (cameraGetFrame_keeps d q hkind.2.symm)
-    · exact ⟨b, by simp only [mirror, hs]; exact cameraClose_auto d q s.nopen [] b hnil, by intro d' hd'; simp at hd'⟩
-    · exact onDev_inv s d b _ hs hg (storageSet_keeps d _ q hkind.2.symm)
-    · exact onDev_inv s d b _ hs hg (storageVoid_keeps d _ q hkind.2.symm (Or.inl rfl))
-    · exact onDev_inv s d b _ hs hg (storageVoid_keeps d _ q hkind.2.symm (Or.inr (Or.inl rfl)))
-    · exact onDev_inv s d b _ hs hg (storageStart_keeps d q hkind.2.symm)
-    · exact onDev_inv s d b _ hs hg (storageStop_keeps d q hkind.2.symm)
-    · exact onDev_inv s d b _ hs hg (storageAppend_keeps d _ q hkind.2.symm)
-    · exact onDev_inv s d b _ hs hg (storageVoid_keeps d _ q hkind.2.symm (Or.inr (Or.inr rfl)))
-    · exact ⟨b, by simp only [mirror, hs]; exact storageClose_auto d q s.nopen [] b hkind.2.symm hnil hg2,
-        by intro d' hd'; simp at hd'⟩
+    have hk := hkind.2.symm
+    have ho := hkind.1
+    have hg' : Good s b := hg
+    rw [← hs]
+    cases c
+    case stoValidate => exact absurd rfl hv
+    case camOpen => simp [Call.isOpen] at ho
+    case stoOpen => simp [Call.isOpen] at ho
+    case camSet a => rw [hs]; exact onDev_inv s d b _ hs hg (cameraSet_keeps d _ q hk)
+    case camGet a => rw [hs]; exact onDev_inv s d b _ hs hg (cameraGetter_keeps d _ _ q hk (Or.inl rfl))
+    case camGetMeta a => rw [hs]; exact onDev_inv s d b _ hs hg (cameraGetter_keeps d _ _ q hk (Or.inr (Or.inl rfl)))
+    case camGetShape a => rw [hs]; exact onDev_inv s d b _ hs hg (cameraGetter_keeps d _ _ q hk (Or.inr (Or.inr rfl)))
+    case camStart => rw [hs]; exact onDev_inv s d b _ hs hg (cameraStart_keeps d q hk)
+    case camStop => rw [hs]; exact onDev_inv s d b _ hs hg (cameraStop_keeps d q hk)
+    case camTrigger => rw [hs]; exact onDev_inv s d b _ hs hg (cameraExecuteTrigger_keeps d q hk)
+    case camGetFrame => rw [hs]; exact onDev_inv s d b _ hs hg (cameraGetFrame_keeps d q hk)
+    case camClose =>
+      rw [hs]; dsimp only
+      refine ⟨b, ?_, ?_⟩
+      · simp only [mirror, hs]; exact cameraClose_auto d q s.nopen [] b hnil
+      · intro d' hd'; simp at hd'
+    case stoSet a => rw [hs]; exact onDev_inv s d b _ hs hg (storageSet_keeps d _ q hk)
+    case stoGet => rw [hs]; exact onDev_inv s d b _ hs hg (storageVoid_keeps d _ q hk (Or.inl rfl))
+    case stoGetMeta => rw [hs]; exact onDev_inv s d b _ hs hg (storageVoid_keeps d _ q hk (Or.inr (Or.inl rfl)))
+    case stoStart => rw [hs]; exact onDev_inv s d b _ hs hg (storageStart_keeps d q hk)
+    case stoStop => rw [hs]; exact onDev_inv s d b _ hs hg (storageStop_keeps d q hk)
+    case stoAppend k => rw [hs]; exact onDev_inv s d b _ hs hg (storageAppend_keeps d _ q hk)
+    case stoReserve => rw [hs]; exact onDev_inv s d b _ hs hg (storageVoid_keeps d _ q hk (Or.inr (Or.inr rfl)))
+    case stoClose =>
+      rw [hs]; dsimp only
+      refine ⟨b, ?_, ?_⟩
+      · simp only [mirror, hs]; exact storageClose_auto d q s.nopen [] b hk hnil hg2
+      · intro d' hd'; simp at hd'
+
+theorem run_inv (s : HalState) (h : History) (b : Bool) (hg : Good s b) :
+    ∃ b', autoRun (mirror s b) (run s h).2 = some (mirror (run s h).1 b') ∧ Good (run s h).1 b' := by
+  induction h generalizing s b with
+  | nil => exact ⟨b, rfl, hg⟩
+  | cons cq t ih =>
+    obtain ⟨c, q⟩ := cq
+    obtain ⟨b1, h1, g1⟩ := step_inv s c q b hg
+    obtain ⟨b2, h2, g2⟩ := ih (step s c q).1 b1 g1
+    exact ⟨b2, by simp only [run]; exact autoRun_append_some h1 h2, by simp only [run]; exact g2⟩
+
+theorem good_init : Good {} false := by
+  intro d hd; simp at hd
+
+theorem mirror_init : mirror {} false = {} := rfl
 
 end AcqVerif.Hal
